@@ -132,3 +132,10 @@ impl DifficultyValues {
             .collect()
     }
 }
+
+#[cfg(rosu_pp_verif)]
+impl CatchDifficultySetup {
+    pub(crate) fn verif_cs(&self) -> f32 {
+        self.map_attrs.cs as f32
+    }
+}
